@@ -12,6 +12,7 @@ from __future__ import annotations
 import ast
 from typing import Dict, List, Optional, Set
 
+from ..astutil import call_name
 from ..cfg import ReachingDefs
 from ..loader import FuncInfo, Program, enclosing_stmt, parent, short, walk_own
 from ..report import BAD, INFO, OK, Instance
@@ -513,4 +514,50 @@ def rule_signed_magnitude(prog: Program, modules: Optional[Set[str]] = None) -> 
             out.append(Instance("R-SIGNMAG", f"{fi.qual}#res-magnitude:{short(n, 40)}", BAD if bad else OK,
                                 f"`{short(n, 60)}` aggregates signed resolution components: for a raster mirrored in x (both components negative) the result is negative, a width/buffer computed from it has the wrong sign" if bad
                                 else f"`{short(n, 60)}` aggregates resolution magnitudes (abs taken first)", fi.where(n)))
+    return out
+
+
+# ---------------------------------------------------------------------------------------------
+# R-DENSIFY: a region projected into another CRS in order to cover it must be densified
+# ---------------------------------------------------------------------------------------------
+DENSIFY_EXEMPT = {
+    "geobox:GeoBox.map_bounds": "display helper: three corners for a leaflet map",
+    "geom:BoundingBox.map_bounds": "display helper: three corners for a leaflet map",
+    "geom:BoundingBox.aoi": "coarse lon/lat area of interest handed to pyproj for choosing a transformation pipeline",
+    "overlap:compute_output_geobox": "extent of the single centre pixel, used for a resolution estimate",
+    "crs:CRS.utm": "coarse lon/lat box for choosing a UTM zone",
+    "crs:crs_units_per_degree": "two-point probe segment a fraction of a degree long",
+    "gcp:GCPGeoBox.to_crs": "a multipoint of control points: points have no edges",
+    "_xr_interop:rasterize": "burns a polygon into a mask; none of the 20 properties speaks about rasterize (its edge accuracy under reprojection is a separate concern)",
+}
+
+
+def rule_densify(prog: Program, modules: Optional[Set[str]] = None) -> List[Instance]:
+    """Edges that are straight in one CRS are curves in another. Code that projects a query region /
+    footprint with `to_crs` in order to take its bounding box or to test tiles against it must ask for
+    densification (`resolution=`), unless what it projects was densified already (a `footprint(...)`)."""
+    out: List[Instance] = []
+    for fi in prog.all_functions(modules):
+        for n in walk_own(fi.node):
+            if not (isinstance(n, ast.Call) and isinstance(n.func, ast.Attribute) and n.func.attr == "to_crs"):
+                continue
+            recv = n.func.value
+            # CRS.to_crs-like things and non-geometry receivers are out: receiver must be a geometry / bounding box
+            classes = {c.name for c in prog.receiver_classes(recv, fi)}
+            if classes and not (classes & {"Geometry", "BoundingBox"}):
+                continue
+            cid = f"{fi.qual}#densify:{short(n, 40)}"
+            key = next((k for k in DENSIFY_EXEMPT if fi.qual.startswith(k)), None)
+            has_res = any(k.arg == "resolution" for k in n.keywords) or len(n.args) >= 2 or any(k.arg is None for k in n.keywords)
+            pre = any(isinstance(c, ast.Call) and call_name(c) in ("footprint", "segmented", "densify") for c in ast.walk(recv))
+            if not pre and isinstance(recv, ast.Name):
+                pre = any(isinstance(x, ast.Assign) and any(isinstance(t, ast.Name) and t.id == recv.id for t in x.targets) and any(isinstance(c, ast.Call) and call_name(c) in ("footprint", "segmented") for c in ast.walk(x.value)) for x in walk_own(fi.node))
+            pointlike = any(isinstance(c, ast.Attribute) and c.attr in ("centroid",) for c in ast.walk(recv)) or any(isinstance(c, ast.Call) and call_name(c) in ("point", "multipoint") for c in ast.walk(recv))
+            if has_res or pre or pointlike:
+                out.append(Instance("R-DENSIFY", cid, OK, "densification requested" if has_res else "projects an already densified footprint" if pre else "points have no edges", fi.where(n)))
+            elif key is not None:
+                out.append(Instance("R-DENSIFY", cid, INFO, f"table: {DENSIFY_EXEMPT[key]}", fi.where(n), nontrivial=False))
+            else:
+                out.append(Instance("R-DENSIFY", cid, BAD,
+                                    f"`{short(n, 60)}` projects a region by its vertices only: edges that are straight in its CRS bulge in the target CRS, so a bounding box / tile test taken from the result misses what lies under the bulge (pass resolution=...)", fi.where(n)))
     return out
